@@ -182,38 +182,53 @@ Theorem C11_nonfinite_none : forall v ty sys, f64_is_finite v = false ->
 Proof. exact nonfinite_none. Qed.
 
 (* ---------- the serde helpers deserialize_as_{datetime,date,time,duration}_or_* ---------- *)
+(* what the helpers see of calamine's own cell deserializer is the cell itself *)
+Theorem C11_helper_cell_roundtrip : forall c, c <> CError -> de_roundtrip c = Ok c.
+Proof. exact de_roundtrip_id. Qed.
+
+(* a helper returns the cell's own conversion, for every cell: no known class is left
+   (F34: 1904-system cells, F35: durations — both repaired) *)
 Theorem C11_helpers_agree : forall c, c <> CError ->
-  (known_C11_helper_dt c = None ->
-     helper_as_datetime c = data_as_datetime c /\ helper_as_date c = data_as_date c /\
-     helper_as_time c = data_as_time c) /\
-  (known_C11_helper_dur c = None -> helper_as_duration c = data_as_duration c).
+  helper_as_datetime c = data_as_datetime c /\ helper_as_date c = data_as_date c /\
+  helper_as_time c = data_as_time c /\ helper_as_duration c = data_as_duration c.
 Proof. exact helpers_agree. Qed.
+
+Theorem C11_helpers_datetime_cell : forall v ty sys,
+  let x := {| edt_value := v; edt_is_duration := ty; edt_is_1904 := sys |} in
+  helper_as_datetime (CDateTime x) = edt_as_datetime x /\
+  helper_as_date (CDateTime x) = data_as_date (CDateTime x) /\
+  helper_as_time (CDateTime x) = data_as_time (CDateTime x) /\
+  helper_as_duration (CDateTime x) = edt_as_duration x.
+Proof. exact helpers_datetime_cell. Qed.
+
+Theorem C11_helpers_error_cell :
+  helper_as_datetime CError = Err 1 /\ helper_as_date CError = Err 1 /\
+  helper_as_time CError = Err 1 /\ helper_as_duration CError = Err 1.
+Proof. exact helpers_error_cell. Qed.
 
 Theorem C11_helpers_no_panic : forall c,
   helper_as_datetime c <> Panic /\ helper_as_date c <> Panic /\
   helper_as_time c <> Panic /\ helper_as_duration c <> Panic.
 Proof. exact helpers_no_panic. Qed.
 
-(* a 1904-system DateTime cell comes out 1462 days early through the helpers *)
-Theorem C11_refuted_helper_drops_1904 :
-  exists c, c <> CError /\ known_C11_helper_dt c = Some HELPER_DROPS_1904 /\
-    data_as_datetime c = Ok (Some {| dt_days := days_of_civil 2027 3 16; dt_time := (43200, 0) |}) /\
-    helper_as_datetime c = Ok (Some {| dt_days := days_of_civil 2023 3 15; dt_time := (43200, 0) |}) /\
-    helper_as_datetime c <> data_as_datetime c.
-Proof. exact refuted_helper_drops_1904. Qed.
+(* the former witnesses of F34 / F35: a 1904-system cell keeps its date system, a duration cell
+   yields its duration *)
+Theorem C11_helper_keeps_1904 :
+  helper_as_datetime CELL_1904 =
+    Ok (Some {| dt_days := days_of_civil 2027 3 16; dt_time := (43200, 0) |}) /\
+  helper_as_datetime CELL_1904 = data_as_datetime CELL_1904.
+Proof. exact helper_keeps_1904. Qed.
 
-(* a duration cell never yields its duration through the helpers *)
-Theorem C11_refuted_helper_duration_none :
-  exists c, c <> CError /\ known_C11_helper_dur c = Some HELPER_DURATION_NONE /\
-    data_as_duration c = Ok (Some (129600, 0)) /\ helper_as_duration c = Ok None.
-Proof. exact refuted_helper_duration_none. Qed.
+Theorem C11_helper_duration_some :
+  helper_as_duration CELL_36H = Ok (Some (129600, 0)) /\
+  helper_as_duration CELL_36H = data_as_duration CELL_36H.
+Proof. exact helper_duration_some. Qed.
 
 (* ---------- non-vacuity: concrete objects satisfy the hypotheses ---------- *)
 Example C11_helpers_agree_nonvacuous :
   let c := CDateTime {| edt_value := V45000; edt_is_duration := false; edt_is_1904 := false |} in
-  c <> CError /\ known_C11_helper_dt c = None /\
-  helper_as_datetime c = Ok (Some (at_midnight (days_of_civil 2023 3 15))) /\
-  known_C11_helper_dur (CFloat V45000) = None.
+  c <> CError /\
+  helper_as_datetime c = Ok (Some (at_midnight (days_of_civil 2023 3 15))).
 Proof. exact helpers_agree_nonvacuous. Qed.
 
 Example C11_whole_serials_nonvacuous :
@@ -284,6 +299,10 @@ Check C11_beyond_calendar_none : forall v ty sys,
    days < MIN_DATE_DAYS \/ MAX_DATE_DAYS < days) ->
   edt_as_datetime {| edt_value := v; edt_is_duration := ty; edt_is_1904 := sys |} = Ok None.
 
+Check C11_helpers_agree : forall c, c <> CError ->
+  helper_as_datetime c = data_as_datetime c /\ helper_as_date c = data_as_date c /\
+  helper_as_time c = data_as_time c /\ helper_as_duration c = data_as_duration c.
+
 Print Assumptions C11_civil_bijection.
 Print Assumptions C11_civil_is_the_calendar.
 Print Assumptions C11_no_panic.
@@ -307,7 +326,10 @@ Print Assumptions C11_duration_monotone.
 Print Assumptions C11_beyond_calendar_none.
 Print Assumptions C11_beyond_calendar_whole.
 Print Assumptions C11_nonfinite_none.
+Print Assumptions C11_helper_cell_roundtrip.
 Print Assumptions C11_helpers_agree.
+Print Assumptions C11_helpers_datetime_cell.
+Print Assumptions C11_helpers_error_cell.
 Print Assumptions C11_helpers_no_panic.
-Print Assumptions C11_refuted_helper_drops_1904.
-Print Assumptions C11_refuted_helper_duration_none.
+Print Assumptions C11_helper_keeps_1904.
+Print Assumptions C11_helper_duration_some.
